@@ -673,7 +673,7 @@ class PageXMLTextRegion(PageXMLDoc):
         for text_region in self.text_regions:
             text_regions.add(text_region)
             if text_region.text_regions:
-                text_regions += text_region.get_all_text_regions()
+                text_regions |= text_region.get_all_text_regions()
         return text_regions
 
     def get_inner_text_regions(self) -> List[PageXMLTextRegion]:
